@@ -1979,6 +1979,16 @@ class NNDescent:
                 current_graph, self._neighbor_graph[0], self._neighbor_graph[1]
             )
             init_rp_tree(self._raw_data, self._distance_func, current_graph, leaf_array)
+            # Top up rows that are still unfilled, as nn_descent does for a fresh
+            # build: a new point that shares no tree leaf with another point would
+            # otherwise keep an empty row and never be reached.
+            init_random(
+                self.n_neighbors,
+                self._raw_data,
+                current_graph,
+                self._distance_func,
+                self.rng_state,
+            )
 
             if self.max_candidates is None:
                 effective_max_candidates = min(60, self.n_neighbors)
